@@ -1,6 +1,7 @@
 package main
 
 import (
+	"strings"
 	"fmt"
 
 	"github.com/shopspring/decimal"
@@ -182,6 +183,27 @@ func init() {
 			roundsB := []any{mkRound(false, hexs(validToken), []any{}), mkRound(false, "", []any{J{"id": "7", "def": def(7)}}), mkRound(false, "", []any{}), mkRound(false, "", []any{})}
 			g.Emit(J{"op": "llo.handover", "cfgA": cfgA, "cfgB": cfgB, "startA": startA, "startB": startB, "startSeqNr": 10, "roundsA": roundsA, "roundsB": roundsB},
 				"handover", "handover-at-channel-limit")
+			if nch == 2000 {
+				// the successor itself is full (2 000 definitions) when it is promoted and does not define channel 3 yet;
+				// later one of its channels is voted out and channel 3 voted in, in the same round: the inherited
+				// validity start of channel 3 must have survived every outcome in between
+				fdefs, fva := []any{}, []any{}
+				for id := 1; id <= 2001; id++ {
+					if id == 3 {
+						continue
+					}
+					fdefs = append(fdefs, J{"id": S(id), "def": def(id)})
+					fva = append(fva, J{"id": S(id), "va": S(w.now - 20_000_000_000)})
+				}
+				startBfull := J{"stage": "staging", "ts": S(w.now - 10_000_000_000), "defs": fdefs, "va": fva, "aggs": []any{}}
+				swap := mkRound(false, "", []any{J{"id": "3", "def": def(3)}})
+				for _, o := range swap["obs"].([]any) {
+					o.(J)["removes"] = []any{"2001"}
+				}
+				roundsB2 := []any{mkRound(false, hexs(validToken), []any{}), mkRound(false, "", []any{}), swap, mkRound(false, "", []any{}), mkRound(false, "", []any{})}
+				g.Emit(J{"op": "llo.handover", "cfgA": cfgA, "cfgB": cfgB, "startA": startA, "startB": startBfull, "startSeqNr": 10, "roundsA": roundsA, "roundsB": roundsB2},
+					"handover", "full-successor-swaps-in-an-inherited-channel")
+			}
 		}
 	}
 	RegGen("C04", "plus handovers of a predecessor holding 1999 / 2000 channels, all reportable in its last reporting round", genFullHandover)
@@ -392,5 +414,39 @@ func init() {
 			}
 		}
 	}
+	// A well-formed premium-legacy channel through the REAL codec: the seconds written on chain must tile too
+	// (sub-second observation times in the upper and lower halves of their seconds, both protocol versions).
+	genOnchain := func(g *G) {
+		feed := "0x" + strings.Repeat("ab", 32)
+		opts := hexs([]byte(fmt.Sprintf(`{"baseUSDFee":"1","expirationWindow":60,"feedID":%q,"multiplier":"10"}`, feed)))
+		def := J{"format": "1", "opts": opts, "streams": []any{J{"sid": "1", "agg": "1"}, J{"sid": "2", "agg": "1"}, J{"sid": "3", "agg": "3"}}}
+		for _, ver := range []uint32{1, 0} {
+			for _, fracs := range [][]uint64{{600, 400, 600, 900, 100, 500, 499, 501}, {900, 950, 50, 999, 1, 500, 500, 0}, {0, 0, 0, 0, 0, 0, 0, 0}} {
+				w := newWorld(g)
+				w.f, w.hasPred, w.version, w.interval, w.alias, w.verbose = 1, false, ver, uint64(ver), 0, false
+				sec := uint64(1_700_000_100)
+				rounds := []any{}
+				for r, ms := range fracs {
+					sec += uint64(1 + r%2)
+					now := sec*1_000_000_000 + ms*1_000_000
+					obs, honest := []any{}, []any{}
+					for k := 0; k < 4; k++ {
+						p := int64(1500 + r + k)
+						o := J{"retire": false, "attested": "", "ts": S(now + uint64(k)), "removes": []any{}, "updates": []any{}, "values": []any{
+							J{"sid": "1", "v": svJ(llo.ToDecimal(decimal.New(p, -1)))}, J{"sid": "2", "v": svJ(llo.ToDecimal(decimal.New(p+7, -1)))},
+							J{"sid": "3", "v": svJ(&llo.Quote{Bid: decimal.New(p-1, 0), Benchmark: decimal.New(p, 0), Ask: decimal.New(p+1, 0)})}}}
+						if r == 0 {
+							o["updates"] = []any{J{"id": "1", "def": def}}
+						}
+						obs = append(obs, o)
+						honest = append(honest, k)
+					}
+					rounds = append(rounds, J{"obs": obs, "honest": honest})
+				}
+				g.Emit(J{"op": "llo.history", "cfg": w.cfgJ(), "startSeqNr": 1, "rounds": rounds, "attestations": []any{}, "strictCodec": true}, "history", "onchain-windows-premium-legacy")
+			}
+		}
+	}
+	RegGen("C03", "plus histories of a premium-legacy channel whose reports are also encoded by the real codec (on-chain seconds must be adjacent and non-empty)", genOnchain)
 	RegGen("C03", "plus histories in which one stream of a JSON channel has no value for one or two rounds (real JSON codec decides whether the report can be encoded)", genOutage)
 }
